@@ -336,6 +336,56 @@ impl Prog {
         out
     }
 
+    /// Rust type (as source text) of every `(node, out port)`. Used to annotate the recording
+    /// closures: an un-annotated generic sink would leave push-side pipelines without any concrete
+    /// item type to infer from (user programs normally pin the type in their sinks).
+    pub fn types(&self) -> Vec<Vec<String>> {
+        use Op::*;
+        const KV: &str = "(u8, u8)";
+        const MAX: &str = "dfir_rs::lattices::Max<u8>";
+        let mut out: Vec<Vec<String>> = Vec::with_capacity(self.nodes.len());
+        for node in &self.nodes {
+            let it: Vec<String> = node.ins.iter().map(|&(n, p)| out[n][p].clone()).collect();
+            let s = |x: &str| x.to_string();
+            let t: Vec<String> = match &node.op {
+                Src(_) => vec![s(KV)],
+                Empty => vec![s("_")],
+                Sink(_) | Null => vec![],
+                Map(f) => vec![match f {
+                    MapFn::Swap | MapFn::SuccSwap | MapFn::Const => s(KV),
+                    MapFn::Key => s("u8"),
+                    MapFn::Pair2 => s("[(u8, u8); 2]"),
+                    MapFn::ToMax => s(MAX),
+                    MapFn::ToSingletonSet => s("dfir_rs::lattices::set_union::SetUnionSingletonSet<u8>"),
+                    MapFn::ToEnum => s("vf_dfir_rt::Kv2"),
+                }],
+                Filter | FilterMap | FlatMap | Flatten | Reduce(..) | ReduceNoReplay(..) | ReduceKeyed(..) | Scan(_) => vec![s(KV)],
+                Probe(_) | Identity | Handoff | Sort | SortByKey | Unique(_) | Persist | MultisetDelta | DeferTick
+                | DeferTickLazy | Singleton | Chain | ChainFirstN(_) | DeferSignal | AntiJoin(..) | Difference(..) => {
+                    vec![it[0].clone()]
+                }
+                Union => vec![it.iter().find(|t| *t != "_").cloned().unwrap_or(s("_"))],
+                Enumerate(_) => vec![format!("(usize, {})", it[0])],
+                Fold(..) | FoldNoReplay(..) => vec![s("Vec<(u8, u8)>")],
+                FoldKeyed(..) => vec![s("(u8, Vec<u8>)")],
+                LatticeFold(_) | LatticeReduce(_) => vec![s(MAX)],
+                Tee | Partition => vec![it[0].clone(), it[0].clone()],
+                Unzip => vec![s("u8"), s("u8")],
+                DemuxEnum => vec![s("(u8,)"), s("(u8, u8)")],
+                State(_) => vec![s(MAX), s(MAX)],
+                StateBy(_) => vec![s(KV), s("dfir_rs::lattices::set_union::SetUnionBTreeSet<u8>")],
+                Join(..) | JoinMultiset(..) | JoinMultisetHalf(_) | JoinFusedLhs(..) => vec![s("(u8, (u8, u8))")],
+                JoinFused(..) | JoinFusedRhs(..) => vec![s("(u8, (u8, Vec<u8>))")],
+                CrossJoin(..) | CrossJoinMultiset(..) | CrossSingleton(_) | Zip(..) => vec![format!("({}, {})", it[0], it[1])],
+                ZipLongest(_) => vec![format!("dfir_rs::itertools::EitherOrBoth<{}, {}>", it[0], it[1])],
+                RefMap(_) => vec![s("((u8, u8), Vec<(u8, u8)>)")],
+            };
+            assert_eq!(t.len(), node.op.n_out());
+            out.push(t);
+        }
+        out
+    }
+
     /// Flag per sink index.
     pub fn sink_flags(&self) -> Vec<Flag> {
         let fl = self.flags();
